@@ -1,7 +1,7 @@
 """C12 — event filters select exactly the matching subsequence."""
 from hypothesis import strategies as st
 
-from .. import files, kmodel, logs, strategies as S
+from .. import cli as CLI, files, kmodel, logs, strategies as S
 from ..core import Violation, guard
 from ..io_util import BudgetReader
 
@@ -10,11 +10,13 @@ RULE = ('version-2 and version-3 dumps whose event ids are concentrated on a poo
         'whose thread ids come from a pool of 4 (so that filters hit and miss); v3 dumps carry log blocks whose '
         'records may lack the process name, the pid or have thread id 0. Configurations: filter_tid in {None, pool, '
         'absent, 0}, class and subclass filters as lists or tuples (empty, singletons, overlapping, absent values, '
-        'duplicates); for logs filter_tid and filter_process in {None, a process name, str(pid), absent}. Oracle: '
+        'duplicates; assigned, or appended in place to the lists of the new object); for logs filter_tid and filter_process in {None, a process name, str(pid), absent}. Oracle: '
         'filtered listing == plain-loop filter (predicate written from the statement) of the unfiltered listing, as '
         'lists; no log in the event listing, no event in the log listing (also for version-2 dumps, whose log listing is '
         'empty); the event listing is also taken after a consumed traces request on the same object. Non-trivial: the filter keeps at least one '
-        'and drops at least one element; distinct by (file, config).')
+        'and drops at least one element; distinct by (file, config). Sub-check long: streams of 257..1300 records with 255..1024 non-matching records between two matches. Sub-check cli: the same dumps and configurations through the '
+        'command line (`kevents --tid -cf -sf`, `logs --tid --process`, numbers spelled in decimal, hex or octal): the '
+        'printed lines == the lines of the unfiltered listing at the positions the predicate selects.')
 ASSUMPTIONS = ['predicate: tid equal; and, when either list is non-empty, class (id >> 24) in classes or subclass '
                '(id >> 16) in subclasses']
 
@@ -37,7 +39,7 @@ def config():
     sub = st.one_of(st.just([]), st.lists(st.tuples(st.sampled_from(CLASSES + [0x42]), st.sampled_from(SUBCODES)).map(
         lambda t: (t[0] << 8) | t[1]), max_size=4))
     return st.fixed_dictionaries({'tid': st.one_of(st.none(), st.none(), st.sampled_from(TIDS), st.sampled_from(TIDS), st.sampled_from([0, 0x77, 0x99])),
-                                  'classes': lst, 'subclasses': sub, 'as_tuple': st.booleans(),
+                                  'classes': lst, 'subclasses': sub, 'as_tuple': st.booleans(), 'in_place': st.sampled_from([False, False, True]),
                                   'process': st.one_of(st.none(), st.integers(0, 9), st.integers(0, 9), st.integers(0, 9)), 'process_kind': st.sampled_from(['name', 'pid', 'absent'])})
 
 
@@ -53,8 +55,14 @@ def new_parser(cfg, process=None):
     from pykdebugparser.pykdebugparser import PyKdebugParser
     p = PyKdebugParser()
     p.filter_tid = cfg['tid']
-    p.filter_class = tuple(cfg['classes']) if cfg['as_tuple'] else list(cfg['classes'])
-    p.filter_subclass = tuple(cfg['subclasses']) if cfg['as_tuple'] else list(cfg['subclasses'])
+    if cfg.get('in_place') and isinstance(p.filter_class, list) and isinstance(p.filter_subclass, list):
+        # the filter lists of a new object are the caller's to fill in place
+        p.filter_class.extend(cfg['classes'])
+        for x in cfg['subclasses']:
+            p.filter_subclass.append(x)
+    else:
+        p.filter_class = tuple(cfg['classes']) if cfg['as_tuple'] else list(cfg['classes'])
+        p.filter_subclass = tuple(cfg['subclasses']) if cfg['as_tuple'] else list(cfg['subclasses'])
     p.filter_process = process
     return p
 
@@ -82,11 +90,15 @@ def prop_filter(ctx, case):
     if any(not isinstance(e, Kevent) for e in base + got):
         raise Violation('log-in-event-listing', 'the event listing contains a non-event item')
     exp = [e for e in base if pred_event(e, cfg)]
+    # configuring one object configures that object only: a new, unconfigured parser still lists everything
+    other = guard(lambda: list(PyKdebugParser().kevents(BudgetReader(blob))))
+    if other != base:
+        raise Violation('filter-shared-between-objects', f'after another object was configured with {cfg}, a new unconfigured parser lists {len(other)} of {len(base)} events')
     if got != exp:
         raise Violation('event-filter', f'config {cfg}: {len(got)} events, expected {len(exp)} of {len(base)}; '
                                         f'first difference at {next((i for i in range(min(len(got), len(exp))) if got[i] != exp[i]), min(len(got), len(exp)))}')
     kept, dropped = len(exp), len(base) - len(exp)
-    cls = ['v%d' % case['version'], *(['after-traces-request'] if case.get('traces_first') else []), 'tid-filter' if cfg['tid'] is not None else 'no-tid-filter',
+    cls = ['v%d' % case['version'], *(['filled-in-place'] if cfg.get('in_place') else []), *(['after-traces-request'] if case.get('traces_first') else []), 'tid-filter' if cfg['tid'] is not None else 'no-tid-filter',
            'class-filter' if cfg['classes'] else 'no-class-filter', 'subclass-filter' if cfg['subclasses'] else 'no-subclass-filter']
     nt = kept > 0 and dropped > 0
     if not logs_present:
@@ -119,7 +131,56 @@ def prop_filter(ctx, case):
     ctx.note([blob, cfg], nontrivial=nt, classes=cls)
 
 
-PROPS = {'filter': prop_filter}
+def prop_cli(ctx, case):
+    """the filters as the command line offers them: kevents --tid/-cf/-sf and logs --tid/--process"""
+    from pykdebugparser.pykdebugparser import PyKdebugParser
+    cfg = case['config']
+    blob = files.build_v2(case['spec']) if case['version'] == 2 else files.build_v3(case['spec'])
+    base = guard(lambda: list(PyKdebugParser().kevents(BudgetReader(blob))))
+    o = {'tid': cfg['tid'], 'cf': cfg['classes'], 'sf': cfg['subclasses'], 'show_tid': case['show_tid'], 'radix': case['radix']}
+    lines = guard(CLI.reference_items, 'kevents', o, blob)
+    if len(lines) != len(base):
+        raise Violation('cli:kevents:lines', f'{len(lines)} formatted lines for {len(base)} events')
+    keep = [ln for ln, e in zip(lines, base) if pred_event(e, cfg)]
+    CLI.expect('kevents', o, blob, keep, 'the options select exactly the matching events')
+    cls = ['cli:kevents', 'v%d' % case['version']]
+    nt = 0 < len(keep) < len(base)
+    if case['version'] == 3:
+        lbase = guard(lambda: list(PyKdebugParser().os_log_events(BudgetReader(blob))))
+        proc = None
+        if cfg['process'] is not None and lbase:
+            r = lbase[cfg['process'] % len(lbase)]
+            proc = {'name': r.process or 'nobody', 'pid': str(r.process_identifier), 'absent': 'no-such-process'}[cfg['process_kind']]
+        o2 = {'tid': cfg['tid'], 'process': proc, 'show_tid': case['show_tid']}
+        llines = guard(CLI.reference_items, 'logs', o2, blob)
+        if len(llines) != len(lbase):
+            raise Violation('cli:logs:lines', f'{len(llines)} formatted lines for {len(lbase)} log records')
+        lkeep = [ln for ln, e in zip(llines, lbase) if (cfg['tid'] is None or e.thread_identifier == cfg['tid']) and
+                 (proc is None or proc == e.process or proc == str(e.process_identifier))]
+        CLI.expect('logs', o2, blob, lkeep, 'the options select exactly the matching log records')
+        if lbase:
+            cls.append('cli:logs')
+            nt = nt or 0 < len(lkeep) < len(lbase)
+    ctx.note([blob, cfg, case['show_tid'], case['radix']], nontrivial=nt, classes=cls)
+
+
+def prop_long(ctx, case):
+    """long streams in which the filter matches rarely: hundreds of non-matching records between two matches"""
+    n, seed, cls_match, gap = case['count'], case['seed'], case['cls'], case['gap']
+    recs = []
+    for k in range(n):
+        w = S.expand_words(seed + 4096, k)
+        hit = k % gap == gap - 1 or k == n - 1
+        cls_k = cls_match if hit else [0x21, 0x22, 0x2b][w[0] % 3]
+        debugid = (cls_k << 24) | ((w[1] & 0xff) << 16) | ((w[2] & 0x3fff) << 2) | (w[3] & 3)
+        recs.append(kmodel.record(k + 1, bytes(32), TIDS[w[0] % 4] if not case['tid_filter'] or hit else 0x99, debugid))
+    cfg = {'tid': TIDS[0] if case['tid_filter'] == 2 else None, 'classes': [] if case['by_subclass'] else [cls_match],
+           'subclasses': [(cls_match << 8) | x for x in range(256)] if case['by_subclass'] else [], 'as_tuple': False, 'process': None, 'process_kind': 'name'}
+    prop_filter(ctx, {'version': 2, 'config': cfg, 'traces_first': False, 'spec': {'tm': [], 'pad': 0, 'recs': recs}})
+    ctx.note(['long', n, gap, seed], nontrivial=True, classes=[f'long-stream:{n // 256 * 256}+'])
+
+
+PROPS = {'filter': prop_filter, 'cli': prop_cli, 'long': prop_long}
 
 
 def run(ctx):
@@ -130,3 +191,11 @@ def run(ctx):
                                 'spec': files.v3_spec(max_events=40, max_n=6, tids=TIDS, records_strategy=recs, log_copies=4, force_logs=True)})
     ctx.run_given('filter', v2, prop_filter, ctx.n(250, 1000))
     ctx.run_given('filter', v3, prop_filter, ctx.n(350, 1400))
+    longs = st.fixed_dictionaries({'count': st.sampled_from([257, 300, 513, 600, 1025, 1300]), 'seed': st.integers(0, 2 ** 32), 'cls': st.sampled_from([1, 4, 7, 0x31]),
+                                   'gap': st.sampled_from([256, 257, 300, 512, 513, 1024, 255]), 'tid_filter': st.sampled_from([0, 0, 1, 2]), 'by_subclass': st.booleans()})
+    ctx.run_given('long', longs, prop_long, ctx.n(20, 150))
+    if ctx.failures:
+        return          # the command line reads real files without a read budget: not on a tree that already fails
+    extra = {'show_tid': st.sampled_from([None, False, True]), 'radix': st.integers(0, 2)}
+    for base, n in ((v2, ctx.n(60, 300)), (v3, ctx.n(80, 400))):
+        ctx.run_given('cli', st.tuples(base, st.fixed_dictionaries(extra)).map(lambda t: {**t[0], **t[1]}), prop_cli, n)
